@@ -31,12 +31,16 @@ Ltac rw_div_vars := repeat match goal with E : ?v = _ / _ |- context [?v] => is_
 Ltac rw_sqrt_vars := repeat match goal with E : ?v = sqrt _ |- context [?v] => is_var v; rewrite E end.
 (* v . q = 1 for the pre-normalisation vector v = (a,b,c,d) of a kinematic prediction from the unit state (w,x,y,z) *)
 Ltac expand_all := repeat match goal with E : ?v = _ |- context [?v] => is_var v; rewrite E end.
+(* a kinematic prediction needs only a few equations (the increment, the state's components, its norm): the expansion is
+   bounded, and abandoned at once when let-variables remain (e.g. on the radicand of a gradient norm, where v . q = 1 is false) *)
+Ltac expand1 := match goal with E : ?v = _ |- context [?v] => is_var v; rewrite E end.
+Ltac no_let_var_left := try (match goal with E : ?v = _ |- context [?v] => is_var v; fail 2 end).
 Ltac dot_one w x y z U := idtac;
   match goal with |- 0 < ?a*?a + ?b*?b + ?c*?c + ?d*?d =>
     apply Rlt_le_trans with 1; [lra|apply (dot_one_norm_ge1 w x y z a b c d U)];
     rw_local a; rw_local b; rw_local c; rw_local d;
-    first [ solve [rw_div_vars; rw_sqrt_vars; rewrite ?U, ?sqrt_1, ?div_one; orient_unit; uring]
-          | timeout 30 (expand_all; rewrite ?U, ?sqrt_1, ?div_one; orient_unit; uring) ] end.
+    first [ solve [rw_div_vars; rw_sqrt_vars; rewrite ?U, ?sqrt_1, ?div_one; orient_unit; first [hring | uring]]
+          | do 40 (try expand1); no_let_var_left; rewrite ?U, ?sqrt_1, ?div_one; orient_unit; hring ] end.
 Ltac pos_mahony w x y z U := first [ pos_guard U | dot_one w x y z U ].
 
 Ltac leaf_unit7 pos :=
